@@ -94,7 +94,7 @@ type c29Ev struct {
 func (e c29Ev) coq() string {
 	switch e.Kind {
 	case "msg":
-		return vApp("Msg", vN(uint64(e.Op)), vBytes(e.Data))
+		return vApp("Msg", vN(uint64(e.Op)), c29Term(e.Data))
 	case "wrote":
 		return vApp("Wrote", vN(uint64(e.Op)), vBytes(e.Data))
 	default:
@@ -222,6 +222,43 @@ func c29Run(cfg c29Cfg, stream []byte) (evs []c29Ev, wellFormedWrites bool) {
 	evs = append(evs, c29Ev{Kind: "err", Err: "EFuel"})
 	return
 }
+
+// c29Term prints a byte string as a Coq term; long stretches with period 4 (constant payloads, also
+// after masking) are printed as (rep [a;b;c;d] k) so that 64K messages stay small terms.
+func c29Term(b []byte) string {
+	var parts []string
+	lit := 0 // start of the pending literal part
+	i := 0
+	flush := func(end int) {
+		if end > lit {
+			parts = append(parts, vBytes(b[lit:end]))
+		}
+	}
+	for i+8 <= len(b) {
+		j := i + 4
+		for j < len(b) && b[j] == b[j-4] {
+			j++
+		}
+		k := (j - i) / 4
+		if k >= 64 {
+			flush(i)
+			parts = append(parts, fmt.Sprintf("(rep %s %d%%nat)", vBytes(b[i:i+4]), k))
+			i += 4 * k
+			lit = i
+		} else {
+			i++
+		}
+	}
+	flush(len(b))
+	if len(parts) == 0 {
+		return "[]"
+	}
+	if len(parts) == 1 {
+		return parts[0]
+	}
+	return "(" + strings.Join(parts, " ++ ") + ")"
+}
+
 
 // ---------------------------------------------------------------- independent frame walker (port of WsReadSpec.v)
 
@@ -645,7 +682,9 @@ func c29Session(r *rand.Rand, cfg c29Cfg, big bool, noCtlInCompressed bool) (fra
 			}
 		}
 		var p []byte
-		if op == 1 {
+		if n > 2000 {
+			p = bytes.Repeat([]byte{byte('a' + r.Intn(26))}, n)
+		} else if op == 1 {
 			p = c29Text(r, n)
 		} else {
 			p = make([]byte, n)
@@ -856,7 +895,7 @@ func c29Emit(w *verifW, i int, cfg c29Cfg, stream []byte, class string) {
 		evs = append(evs, "(Err EPanic)") // unparsable bytes written back
 		class += "/badwrite"
 	}
-	term := vApp("mkCase", cfg.coq(), vList(tb), vBytes(stream), vN(uint64(label)), vList(evs))
+	term := vApp("mkCase", cfg.coq(), vList(tb), c29Term(stream), vN(uint64(label)), vList(evs))
 	last := ""
 	if len(obs) > 0 {
 		last = obs[len(obs)-1].Err
